@@ -24,7 +24,7 @@ META = {
     'technique': 'Lean 4 theorems by induction over arbitrary histories of an executable model of var.go/ue_var.go/builder.go (Var, UnExportedVar, Reset) + differential run of whole histories against the real code over 25 variable types, by pointer and by symbol name',
     'level': 'proof',
     'level_text': 'Full proof on the model: for every variable type and value (incl. nil interfaces and typed nils), and every history of lookups through the builder cache, Set, Apply, Cancel, Reset (any map iteration order) and direct assignments in which a variable is mocked through one mocker at a time, the variable holds after Cancel/Reset exactly the value it had before its first mock; Cancel/Reset never panic and leave un-mocked variables untouched (also when repeated); a successful Set/Apply makes the variable hold the set value; failed Set/Apply and operations on other variables leave it untouched. The theorems are about the code with fix F8; the unrepaired code is refuted in Findings/C08F8.lean and by replayable violations.',
-    'level_note': 'Trusted: Lean kernel (axioms propext, Classical.choice, Quot.sound at most); the hand-written model Model/Var.lean, tied to the current source on every run by differential execution of thousands of histories (all 25 types, both addressing modes, malformed values, stale handles, two builders); the three facts about reflect the model encodes (ValueOf(nil) is invalid, Set panics on invalid/non-assignable, assignability rule - the latter compared with reflect on all type pairs each run). Not modelled: overlaying an unexported variable with a value of another type (documented as unpredictable by goom; an unexported variable of interface type can therefore not be mocked by name), mocking one variable through two mockers at once (two builders, or pointer and name together), data races, GC of the mocker.',
+    'level_note': 'Trusted: Lean kernel (axioms propext, Classical.choice, Quot.sound at most); the hand-written model Model/Var.lean, tied to the current source on every run by differential execution of thousands of histories (all 25 types, both addressing modes, malformed values, stale handles, two builders); the three facts about reflect the model encodes (ValueOf(nil) is invalid, Set panics on invalid/non-assignable, assignability rule - the latter compared with reflect on all type pairs each run). Not modelled: overlaying an unexported variable with a value of another type (documented as unpredictable by goom; an unexported variable of interface type can therefore not be mocked by name: recorded as known finding K-C08-ue-iface, demonstrated on every run in a child process, refuted in Findings/C08F8.lean), mocking one variable through two mockers at once (two builders, or pointer and name together), data races, GC of the mocker.',
 }
 
 H = os.path.join(C.HARNESS, 'c08')
@@ -152,6 +152,8 @@ def gen_hist(rng, lane, stripped=False):
             canceled[v] = False
             kind = kind0
         if kind == 'look':
+            if lane == 'wild':
+                bld[v] = rng.below(2)                # the same variable through two builders: correspondence only
             h.ops.append(f'look {bld[v]} {mode[v]} {v}')
             h.meta.append(('look', v, None))
             if canceled[v] is False:
@@ -408,7 +410,7 @@ def run(tier):
     out = C.Outcome('C08', tier)
     rng = C.Rng(C.seed()).fork('C08')
     proof = C.prove('C08', leanchecker=(tier == 'thorough'))
-    n_disc, n_long, n_wild, n_strip = (1500, 200, 500, 60) if tier == 'quick' else (60000, 6000, 20000, 600)
+    n_disc, n_long, n_wild, n_strip = (1500, 200, 500, 60) if tier == 'quick' else (300000, 30000, 100000, 2000)
     hists = corpus_hists()
     hists += [gen_hist(rng, 'disc') for _ in range(n_disc)]
     hists += [gen_hist(rng, 'long') for _ in range(n_long)]
@@ -456,6 +458,15 @@ def run(tier):
         out.violation(f'{small.line()}: step {w2[0]}: {w2[1]}',
                       {'kind': 'impl-oracle', 'ops': [small.line()], 'meta': small.meta, 'vars': small.vars, 'init': small.init, 'stripped': stripped,
                        'observed': im[0], 'why': w2[1], 'step': w2[0], 'class': w2[2], 'how': 'python3 check.py C08 --replay <this file>'})
+    # 1b. known limit: an unexported variable of interface type, addressed by name (own process: the reader crashes)
+    kh = Hist()
+    kh.vars, kh.init, kh.ops = ['err'], {'err': 'nil'}, ['look 0 u err', 'set 0 perr:1']
+    kh.meta = [('look', 'err', None), ('set', 'err', 'perr:1')]
+    kimpl, _ = run_impl(build_probe('c08-var', '-s=false'), [kh.line()], 'c08-ueiface')
+    kwhy = oracle(kh, kimpl[0])
+    if kwhy:
+        out.violation(f'{kh.line()}: {kwhy[1]}', {'kind': 'impl-oracle', 'ops': [kh.line()], 'meta': kh.meta, 'vars': kh.vars, 'init': kh.init,
+                                                 'observed': kimpl[0], 'why': kwhy[1], 'class': 'ue-iface-var'}, key='ue-iface-var')
     # 2. correspondence
     diffs = []
     if model is None:
